@@ -173,21 +173,24 @@ class ParallelMovPattern(RewritePattern):
 
                     # we don't take srcs[idx] -> dsts[idx] since we need
                     # the SSAValue for both input and output
-                    out = srcs[idx]
+                    first = srcs[idx]
+                    out = first
                     inp = src_by_dst_type[out.type]
 
-                    while inp.type != out.type:
+                    while inp.type != first.type:
                         # we know these are ints since input and output are of the same type
                         inp = cast(SSAValue[riscv.IntRegisterType], inp)
                         out = cast(SSAValue[riscv.IntRegisterType], out)
                         nw_out, nw_inp = _insert_swap_ops(rewriter, inp, out)
-                        # after the swap, the input is in the right place, the input's input
-                        # needs to be moved to the new output
-                        results[output_index[nw_inp.type]] = nw_inp
+                        # after the swap, the output register holds its final value and
+                        # the displaced value sits in the input's register, which is the
+                        # next register to be filled from its own input.
+                        results[output_index[nw_out.type]] = nw_out
                         inp = src_by_dst_type[inp.type]
-                        out = nw_out
+                        out = nw_inp
 
-                    results[output_index[src_types[idx]]] = out
+                    # the last register of the cycle receives the value displaced first
+                    results[output_index[out.type]] = out
                     continue
 
                 # Break the cycle by using free register
